@@ -8,13 +8,13 @@
      drop i     : report_stream_dropped - waker slot cleared, id back to the vacant FIFO, rebuild of used_streams (atomic, same) *)
 From RM Require Import RingModel FullSync Chan.
 
-Inductive mres := MSendOk (v : Z) | MYield (i : nat) (v : Z) | MPending (i : nat) | MEnd (i : nat) | MCreated (i : Z) | MDropped (i : nat) | MNoStream.
-Inductive mop := MoSend (v : Z) | MoPoll (i : nat) | MoDrive (i : nat) | MoCreate | MoDrop (i : nat).
+Inductive mres := MSendOk (v : Z) | MYield (i : nat) (v : Z) | MPending (i : nat) | MEnd (i : nat) | MCreated (i : Z) | MDropped (i : nat) | MNoStream | MCountR (n : Z).
+Inductive mop := MoSend (v : Z) | MoPoll (i : nat) | MoDrive (i : nat) | MoCreate | MoDrop (i : nat) | MoCount.
 Inductive mpc :=
 | MIdle
 | MSendU (v : Z) (j : nat) | MSendQ (v : Z) (j : nat) (id : nat) | MSendW (v : Z) (j : nat) (id : nat) (full : bool) (w : wpc)
 | MDrive (i : nat) | MPollQ (i : nat) (drv : bool) | MPollK (i : nat) (drv : bool) | MReg (i : nat) (r : rpc) (drv : bool) | MParked (i : nat)
-| MCreate | MDrop (i : nat) | MNo.
+| MCreate | MDrop (i : nat) | MNo | MCount.
 
 Record mst := { rings : nat -> st; msm : sm; vacant : list nat; alive : nat -> bool; mthr : nat -> mpc; mlog : list (nat * mres) }.
 
@@ -24,6 +24,7 @@ Variables norm sgn : Z -> Z.
 Variable M : nat.
 
 Definition MAXID : Z := 4294967295.
+Definition L_USEDCNT : Z := 262.
 (* used_streams = the ids not in `vacant`, ascending, padded with the sentinel *)
 Definition used_list (vac : list nat) : list Z :=
   let live := filter (fun i => negb (existsb (Nat.eqb i) vac)) (seq 0 M) in
@@ -107,6 +108,7 @@ Definition mstep (s : mst) (t : nat) : mst :=
       mmk (rings s) {| wakers := upd (wakers (msm s)) i false; keep := keep (msm s); wlock := wlock (msm s); notified := notified (msm s) |}
           (vacant s ++ [i]) (upd (alive s) i false) (upd (mthr s) t MIdle) (mlog s ++ [(t, MDropped i)])
   | MNo => mfinish s t MNoStream MIdle
+  | MCount => mfinish s t (MCountR (Z.of_nat (M - length (vacant s)))) MIdle      (* used_streams_count.load *)
   end.
 
 Definition mstart (s : mst) (t : nat) (o : mop) : mst :=
@@ -119,6 +121,7 @@ Definition mstart (s : mst) (t : nat) (o : mop) : mst :=
       | MoDrive i => if alive s i then msetpc s t (MDrive i) else msetpc s t MNo
       | MoCreate => msetpc s t MCreate
       | MoDrop i => if alive s i then msetpc s t (MDrop i) else msetpc s t MNo
+      | MoCount => msetpc s t MCount
       end
   | _ => s
   end.
@@ -142,6 +145,7 @@ Definition mobs (s : mst) (t : nat) : list Z :=
   | MReg i RS _ => acc t (L_NOTIFIED + Z.of_nat i) K_WAKE 0 (-1) true
   | MParked i => acc t (L_NOTIFIED + Z.of_nat i) K_PARKED (b2z (notified (msm s) i)) (-1) true
   | MCreate | MDrop _ | MNo => acc t 2 K_YIELD 0 (-1) true
+  | MCount => acc t L_USEDCNT K_LOAD (Z.of_nat (M - length (vacant s))) (-1) true
   end.
 
 Definition minit : mst :=
@@ -151,7 +155,7 @@ Definition minit : mst :=
 Definition mres_code (r : mres) : list Z :=
   match r with
   | MSendOk v => [10; v; 0] | MYield i v => [12; v; Z.of_nat i] | MPending i => [13; Z.of_nat i; 0] | MEnd i => [14; Z.of_nat i; 0]
-  | MCreated i => [17; i; 0] | MDropped i => [18; Z.of_nat i; 0] | MNoStream => [19; 0; 0]
+  | MCreated i => [17; i; 0] | MDropped i => [18; Z.of_nat i; 0] | MNoStream => [19; 0; 0] | MCountR n => [15; n; 0]
   end.
 Definition memit (before after : list (nat * mres)) : list (list Z) :=
   map (fun e => 2 :: Z.of_nat (fst e) :: mres_code (snd e)) (skipn (length before) after).
@@ -168,16 +172,27 @@ Definition mgrant (s : mst) (progs : nat -> list mop) (t : nat) : mst * (nat -> 
              end
   | _ => let s2 := mstep s t in (s2, progs, mobs s t :: memit (mlog s) (mlog s2))
   end.
-Fixpoint mrun (s : mst) (progs : nat -> list mop) (sched : list nat) : mst * list (list Z) :=
+Fixpoint mrun' (s : mst) (progs : nat -> list mop) (sched : list nat) : mst * (nat -> list mop) * list (list Z) :=
   match sched with
-  | [] => (s, [])
-  | t :: rest => let '(s1, p1, lines) := mgrant s progs t in let '(s2, more) := mrun s1 p1 rest in (s2, lines ++ more)
+  | [] => (s, progs, [])
+  | t :: rest => let '(s1, p1, lines) := mgrant s progs t in let '(s2, p2, more) := mrun' s1 p1 rest in (s2, p2, lines ++ more)
   end.
+Definition mrun (s : mst) (progs : nat -> list mop) (sched : list nat) : mst * list (list Z) :=
+  let '(s1, _, lines) := mrun' s progs sched in (s1, lines).
+
+(* no operation is in progress: every thread finished its program or sits parked between two polls *)
+Definition mquiet (s : mst) (progs : nat -> list mop) (nthreads : nat) : bool :=
+  forallb (fun t => match mthr s t with MIdle => match progs t with [] => true | _ => false end | MParked _ => true | _ => false end) (seq 0 nthreads).
+(* what every live stream still yields when polled now: [i; n; v1..vn] per live stream *)
+Definition mdrain (s : mst) : list Z :=
+  flat_map (fun i => if alive s i then let p := skipn (length (delivered (rings s i))) (published (rings s i)) in
+                                      Z.of_nat i :: Z.of_nat (length p) :: p else []) (seq 0 M).
 End Multi.
 
 (* `pre` operations (creations / drops) are applied by the unscheduled driver before the run *)
 Definition run_multi_arc_atomic (N : Z) (M : nat) (k : nat) (progs : list (list mop)) (sched : list nat) : list Z :=
   let s0 := Nat.iter k (fun s => mstep N u32 i32 M (mstart M s 0%nat MoCreate) 0%nat) (minit M) in
   let s0' := mmk (rings s0) (msm s0) (vacant s0) (alive s0) (mthr s0) [] in
-  let '(s, lines) := mrun N u32 i32 M s0' (fun t => nth t progs []) sched in
-  concat lines ++ [9].
+  let '(s, p, lines) := mrun' N u32 i32 M s0' (fun t => nth t progs []) sched in
+  let q := mquiet s p (length progs) in
+  concat lines ++ [9; b2z q] ++ (if q then mdrain M s else []) ++ [-1; 0].
